@@ -5,6 +5,7 @@ from ..gen import msgs as M
 from ..gen import wrappers as W
 from ..translate import arith2
 from ..translate import msgsrc
+from ..translate import wrapsrc
 
 SPEC = dict(
     manifest=dict(
@@ -28,20 +29,32 @@ SPEC = dict(
              'fix F17; body inline vs reference) are additionally re-translated from tlb/transaction.py on every run (Generated/MsgLayout.lean) and '
              'proved, for ALL integer budgets and sizes, to be the model\'s conditions (c15_src_layout_tests); initB / bodyB of the hand model are '
              'proved to branch by exactly these regenerated decisions (c15_src_model_layout). '
-             'The WHOLE deserialize methods of MessageAny, CommonMsgInfo, InternalMsgInfo, ExternalMsgInfo, ExternalOutMsgInfo, StateInit, TickTock, '
+             'The WHOLE serialize AND deserialize methods of MessageAny, CommonMsgInfo, InternalMsgInfo, ExternalMsgInfo, ExternalOutMsgInfo, StateInit, TickTock, '
              'CurrencyCollection, ExtraCurrencyCollection are regenerated from transaction.py / account.py / block.py on every run (Generated/MsgSrc.lean, '
-             'translator pytlb.py) and proved for ALL slices to BE the hand model\'s parsers (c15_src_deserialize), so c15_own_parser / c15_round_trip speak '
-             'about the regenerated parser (c15_src_roundtrip_partial); the serialize methods are regenerated and validated too, proved equal for the '
-             'leaf classes (c15_src_serialize_partial); the composite serialisers remain hand model + correspondence + the layout decision lines.',
-        level_note='theorems are about the hand model; model = pytoniq-core only on the generated inputs (sampled). Dictionaries '
+             'translator pytlb.py) and proved for ALL inputs to BE the hand model: the parsers on every slice (c15_src_deserialize), the serialisers for every '
+             'message / state-init / currency value / header under Lawful + Total (c15_src_serialize: the code calls end_cell() on every piece, the model appends '
+             'its bits and refs; bridged by the builder size invariant SrcMsgSer.Safe + sub_bridge). Hence c15_src_never_overflows (the regenerated '
+             'MessageAny.serialize returns under the tight bound; mBig shows tightness on the regenerated code), c15_src_roundtrip (regenerated serialize then '
+             'regenerated deserialize = identity on the property\'s domain), c15_src_layout_connected (the whole method branches by the regenerated decision lines), '
+             'c15_src_header_roundtrip / c15_src_address_roundtrip (C06 level: every encodable header / address goes through the regenerated writer and reader '
+             'unchanged, nothing left unread). '
+             'The wrappers of tlb/custom/wallet.py and tlb/custom/nft.py (WalletV3Data, WalletV4Data, HighloadWalletData, WalletMessage, NftItemData, '
+             'NftItemSaleFees, NftItemSaleData) are regenerated too (Generated/WrapSrc.lean, wrapsrc.py): constructors (wallet_id None -> 698983191, any int kept, '
+             '0 included; public_key None raises: c15_src_wrapper_defaults), serialize and deserialize = Model/Wrappers.lean for all inputs (c15_src_wrappers), '
+             'constructor -> serialize -> deserialize round trips on the regenerated code (c15_src_wallet_v3_roundtrip, c15_src_highload_roundtrip with old '
+             'queries, c15_src_wallet_message_roundtrip); HashUpdate of tlb/utils.py likewise (c15_src_hash_update).',
+        level_note='the hand models of the message classes and of the custom wrappers are proved equal to definitions regenerated from the source on every run '
+                   '(trusted: the translator pytlb.py / wrapsrc.py / msgsrc.py with its declared interface -- Builder / Slice methods = BOp / SOp of Model/Builder.lean, '
+                   'value domains, opaque HashMap calls -- validated against CPython on every change); Builder / Slice, HashMap, Cell stay hand model + sampled correspondence. Dictionaries '
                    '(extra currencies, library, plugins, old_queries) are optional root references (dictionary contents are C09/C10). '
                    'bits256 fields must be 32 bytes: the library does not check the length (a shorter key serialises to a cell that is '
                    'not a valid value; shown as an example, outside the property). The dictionary a HighloadWalletData cell holds is compared '
                    'semantically (HashMap.parse for the structure, the spec decoder per value), its root cell being opaque to the theorems.',
-        technique='Lean 4 proof (hand model) + differential correspondence with the library + source-regenerated layout decisions'),
+        technique='Lean 4 proof; message classes and custom wrappers regenerated from the source (whole methods) and proved equal to the hand model; differential correspondence with the library for the rest'),
     translators=[('transaction.py MessageAny.serialize inline/reference decisions->Generated/MsgLayout.lean', arith2.regenerator('MsgLayout')),
-                 ('transaction.py / account.py / block.py whole message serialize / deserialize methods->Generated/MsgSrc.lean', msgsrc.regenerate)],
-    lean_targets=['TonVerif.Proofs.SrcMsg'],
+                 ('transaction.py / account.py / block.py whole message serialize / deserialize methods->Generated/MsgSrc.lean', msgsrc.regenerate),
+                 ('custom/wallet.py / custom/nft.py / utils.py HashUpdate constructors + whole serialize / deserialize methods->Generated/WrapSrc.lean', wrapsrc.regenerate)],
+    lean_targets=['TonVerif.Proofs.SrcMsg', 'TonVerif.Proofs.SrcMsgSer', 'TonVerif.Proofs.SrcWrap'],
     design_ref='DESIGN.md §6 C15',
     rule='boundary sweep: header kind (internal / ext-in / ext-out) x extra-currency dict (0/1/many entries) x state-init shape '
          '(absent, 0..3 refs, split_depth, tick-tock) x body bits {0, 1, each exact inline limit -1/0/+1, 1023} x body refs 0..4, plus '
@@ -60,6 +73,8 @@ SPEC = dict(
                   'harness/gen/msgs.py, harness/gen/wrappers.py: second transcription of the schemas (oracle), canonical strings, library '
                   'object construction',
                   'dictionaries are serialised/parsed by the library HashMap (C09/C10) and treated as opaque root cells',
+                  'harness/translate/pytlb.py + msgsrc.py + wrapsrc.py (whole serialize / deserialize methods and constructors -> Lean; declared interface in '
+                  'design/translators-tlb.md), lean/TonVerif/PyTlb.lean',
                   'harness/translate/pyarith.py + arith.py/arith2.py (Python statements -> Lean) for the c15_src_* theorems; builder.available_bits / '
                   'available_refs are read as integer inputs (their definitions 1023 - used_bits, 4 - len(refs) are instantiated in c15_src_model_layout)'],
     assumptions=['correspondence is sampled differential testing', 'referenced cells (code/data/library/body/dict root/content) are ordinary cells',
@@ -550,14 +565,27 @@ def src_search(ctx):
             ctx.notes.append('regenerated != hand model on: ' + l[:40] + ' .. ' + l[-120:])
     except Exception as e:
         ctx.notes.append(f'source-diff search (MsgSrc) failed: {type(e).__name__}: {e}')
-    return False
+    # the regenerated wrappers (Generated/WrapSrc.lean: constructors, serialize, deserialize) against the hand model on the wrapper
+    # requests of check_wrappers + the constructor requests; when they differ the wrapper values are judged FIRST in `run`
+    wdiff = []
+    try:
+        wreqs = [l for l, _ in wrapsrc.harness_requests()]
+        wdiff = wrapsrc.diff_requests(ctx, wreqs)
+        for l in wdiff[:5]:
+            ctx.notes.append('regenerated wrapper != hand model on: ' + l[:60] + ' .. ' + l[-120:])
+    except Exception as e:
+        ctx.notes.append(f'source-diff search (WrapSrc) failed: {type(e).__name__}: {e}')
+    return bool(wdiff)
 
 
 def run(ctx):
     rng = ctx.rng
     pool = M.leaf_pool(rng)
     if ctx.search:
-        src_search(ctx)
+        if src_search(ctx):
+            check_wrappers(ctx, pool)
+            if ctx.failures:
+                return
     # the F17 input first
     f17 = dict(info=('I', True, False, False, ['s', 0, '11' * 32], ['s', 0, '11' * 32], 5, {1: 5}, 0, 0, 0, 0),
                init=dict(sd=None, tt=None, code=pool[1], data=pool[1], lib=pool[1]), body=M.mk_cell('', [pool[1]]))
